@@ -348,3 +348,81 @@ pub fn configure_https(w: &mut WorkerHandle, listener: HttpsListenerConfig, fron
     }));
     std::thread::sleep(Duration::from_millis(400));
 }
+
+/// a well-behaved h2c backend: SETTINGS exchange, generous windows, every complete request answered `200`
+pub fn h2c_backend(listener: TcpListener) {
+    for s in listener.incoming() {
+        let Ok(mut s) = s else { continue };
+        std::thread::spawn(move || {
+            let _ = s.set_read_timeout(Some(Duration::from_secs(10)));
+            let mut acc: Vec<u8> = vec![];
+            let mut buf = [0u8; 65536];
+            while acc.len() < 24 {
+                match s.read(&mut buf) {
+                    Ok(0) | Err(_) => return,
+                    Ok(n) => acc.extend_from_slice(&buf[..n]),
+                }
+            }
+            acc.drain(..24);
+            let _ = s.write_all(&settings(&[]));
+            let _ = s.write_all(&frame(T_WU, 0, 0, &(1u32 << 24).to_be_bytes()));
+            loop {
+                let (frames, used) = parse_frames(&acc);
+                acc.drain(..used);
+                for f in frames {
+                    match f.t {
+                        T_SETTINGS if f.flags & 1 == 0 => {
+                            let _ = s.write_all(&frame(T_SETTINGS, 1, 0, &[]));
+                        }
+                        T_PING if f.flags & 1 == 0 => {
+                            let _ = s.write_all(&frame(T_PING, 1, 0, &f.payload));
+                        }
+                        T_HEADERS | T_DATA => {
+                            if f.t == T_DATA && !f.payload.is_empty() {
+                                let inc = (f.payload.len() as u32).to_be_bytes();
+                                let _ = s.write_all(&frame(T_WU, 0, 0, &inc));
+                                if f.flags & 1 == 0 {
+                                    let _ = s.write_all(&frame(T_WU, 0, f.sid, &inc));
+                                }
+                            }
+                            if f.flags & 1 != 0 {
+                                let mut resp = frame(T_HEADERS, 4, f.sid, &[0x88]);
+                                resp.extend(frame(T_DATA, 1, f.sid, b"h2pong"));
+                                let _ = s.write_all(&resp);
+                            }
+                        }
+                        T_GOAWAY => return,
+                        _ => {}
+                    }
+                }
+                match s.read(&mut buf) {
+                    Ok(0) | Err(_) => return,
+                    Ok(n) => acc.extend_from_slice(&buf[..n]),
+                }
+            }
+        });
+    }
+}
+
+/// a second cluster reached by the path prefix `prefix` on the same HTTPS frontend, with an h2c backend
+pub fn add_h2_cluster(w: &mut WorkerHandle, front: SocketAddr, back: SocketAddr, prefix: &str) {
+    let fa: SocketAddress = front.into();
+    w.send(RequestType::AddCluster(Cluster { cluster_id: "c1".into(), http2: Some(true), ..Default::default() }));
+    w.send(RequestType::AddHttpsFrontend(RequestHttpFrontend {
+        cluster_id: Some("c1".into()),
+        address: fa,
+        hostname: "localhost".into(),
+        path: PathRule::prefix(prefix.to_string()),
+        position: RulePosition::Tree.into(),
+        ..Default::default()
+    }));
+    w.send(RequestType::AddBackend(AddBackend {
+        cluster_id: "c1".into(),
+        backend_id: "c1-0".into(),
+        address: back.into(),
+        load_balancing_parameters: Some(LoadBalancingParams::default()),
+        sticky_id: None,
+        backup: None,
+    }));
+    std::thread::sleep(Duration::from_millis(300));
+}
